@@ -27,34 +27,12 @@ fn c16_prefilter_byte_relation() {
     kani::cover!(rel && h != c);
 }
 
-fn first_match<H: Char + PartialEq<N>, N: Char>(hay: &[H], c: N, from: usize, cfg: &Config) -> Option<usize> {
-    let mut i = from;
-    while i < hay.len() {
-        if matches(hay[i], c, cfg) {
-            return Some(i);
-        }
-        i += 1;
-    }
-    None
-}
-
-fn last_match<H: Char + PartialEq<N>, N: Char>(hay: &[H], c: N, from: usize, cfg: &Config) -> Option<usize> {
-    let mut i = hay.len();
-    while i > from {
-        i -= 1;
-        if matches(hay[i], c, cfg) {
-            return Some(i);
-        }
-    }
-    None
-}
-
-/// K-pre-a [bounded]: contract of prefilter_ascii, pre: 1 <= |needle| < |hay| (its call sites)
-fn prefilter_ascii_contract<const H: usize, const N: usize>() {
+/// K-pre-a [bounded]: contract of prefilter_ascii; call-site precondition 1 <= N < H.
+pub fn prefilter_ascii_contract<const H: usize, const N: usize, const K: u8>() {
     let hay: [u8; H] = kani::any();
     let needle: [u8; N] = kani::any();
     kani::assume(all_ascii(&hay));
-    let (cfg, _) = any_config();
+    let (cfg, _) = sym_config(K);
     kani::assume(needle_normalized_ascii(&needle, &cfg));
     let only_greedy: bool = kani::any();
     let m = small_matcher(cfg.clone(), 8);
@@ -62,50 +40,28 @@ fn prefilter_ascii_contract<const H: usize, const N: usize>() {
     let h = ascii(&hay);
     let n = ascii(&needle);
     let subseq = spec_subseq(h, n, &cfg);
-    assert!(r.is_some() == subseq, "prefilter rejects exactly the haystacks that do not contain the needle as a subsequence");
+    assert!(r.is_some() == subseq, "the prefilter rejects exactly the haystacks that do not contain the needle as a normalised subsequence");
     if let Some((s, g, e)) = r {
         assert!(s < g && g <= e && e <= H);
         assert!(first_match(h, n[0], 0, &cfg) == Some(s), "start is the first occurrence of the first needle character");
-        // (s, g) is the forward-greedy window: what calculate_score / fuzzy_match_optimal require
-        assert!(greedy_window::<AsciiChar, AsciiChar, N>(h, n, s, g, &cfg).is_some() || N == 1);
+        // (s, g) is the forward-greedy window: the precondition of calculate_score / fuzzy_match_optimal
         if N == 1 {
             assert!(g == s + 1);
+        } else {
+            assert!(greedy_window::<AsciiChar, AsciiChar, N>(h, n, s, g, &cfg).is_some(), "(start, greedy_end) is the forward-greedy window");
         }
         if only_greedy {
             assert!(e == g);
         } else {
-            // e-1 is the last occurrence of the last needle character at or after g-1
-            let last = last_match(h, n[N - 1], g - 1, &cfg);
-            assert!(last == Some(e - 1));
+            assert!(last_match(h, n[N - 1], g - 1, &cfg) == Some(e - 1), "end-1 is the last occurrence of the last needle character");
         }
     }
     kani::cover!(r.is_some());
-    kani::cover!(r.is_none());
     std::mem::forget(m);
 }
 
-#[kani::proof]
-#[kani::unwind(8)]
-fn c01_prefilter_ascii_5_2() {
-    prefilter_ascii_contract::<5, 2>();
-}
-
-#[kani::proof]
-#[kani::unwind(8)]
-fn c01_prefilter_ascii_6_3() {
-    prefilter_ascii_contract::<6, 3>();
-}
-
-#[kani::proof]
-#[kani::unwind(8)]
-fn c01_prefilter_ascii_4_1() {
-    prefilter_ascii_contract::<4, 1>();
-}
-
 /// canary: must FAIL
-#[kani::proof]
-#[kani::unwind(8)]
-fn c01_prefilter_canary() {
+pub fn prefilter_canary() {
     let hay: [u8; 4] = kani::any();
     let needle: [u8; 2] = kani::any();
     kani::assume(all_ascii(&hay) && all_ascii(&needle));
